@@ -29,14 +29,23 @@ TRUSTED = [
     'function bodies), each tied to the code by its own property check and, composed, by this run',
 ]
 ASSUMPTIONS = [
-    'ideal reals: evaluations in which a function takes or returns a float that is not exact in double arithmetic '
-    '(the strict run of the driver says so) are compared within 1e-9 and a remaining difference is counted as float noise',
+    'ideal reals: evaluations in which a function takes or returns a number that is not exact in double arithmetic '
+    '(a float that is not dyadic with at most 15 significant digits, an int beyond 2^53, a float zero computed from a '
+    'negative argument = possibly -0.0; the strict run of the driver says so) are compared within 1e-9 and a remaining '
+    'difference is counted as float noise; non-finite results are outside the model',
     'no text is a date: workbooks in which dateutil.parser.parse accepted a text are discarded',
-    'functions that are transcendental / float-only (except at their exact points), IRR/XIRR/XNPV/VDB/YEARFRAC, SUMIF(S) '
-    'and the volatile ones are outside the model: cells whose evaluation calls them are skipped',
-    'OP_EQ/OP_NE on two native Python values (results of COUNT/COUNTA/IS*…) follow Python == (known finding D57 of C09): '
-    'classified, not reported',
-    'arrays as IF conditions / operator operands and times of day are outside the model',
+    'functions that are transcendental / float-only (except at their exact points), IRR/XIRR/XNPV/VDB/YEARFRAC/PI/SQRTPI, '
+    'SUMIF(S) and the volatile ones are outside the model: cells whose evaluation calls them are skipped '
+    '(the driver answers unsupported:<NAME>); so are fractional powers, times of day, non-ASCII UPPER/LOWER, '
+    'MATCH with an approximate match type over a lookup array that holds an error or an empty cell '
+    '(Python sorted() / list != vs. the "no descent" test of Model/C15), exponent texts in base conversion (Model/C19 grammar), '
+    'POWER(<text that is no number>, <error>) (Model/Value.power returns the error, the code #VALUE!)',
+    'the evaluator hands the NATIVE Python result of COUNT/COUNTA/MAX/MIN/IS* on unchanged: = / <> of two natives follows '
+    'Python == (known finding D57 of C09, reachable through formulas: =COUNT(1)=ISBLANK(F7) is TRUE) and COUNT counts a native '
+    'bool (COUNT(FALSE,ISODD(11)) = 1); the value universe of the models has no native values: classified (res.known D57), not reported',
+    'arrays as IF conditions (the code raises ValueError), operator operands that are arrays, and cells whose VALUE is an '
+    'array being read as a member of a range (the code raises AttributeError) are outside the evaluator model',
+    'a real evaluation slower than 20 s (huge factorials, day-by-day recurrences over millennia) is skipped',
 ]
 
 # ------------------------------------------------------------------------------------------------ wire
@@ -130,8 +139,30 @@ def canon_outcome(fn, *args):
         return 'X:' + type(exc).__name__, None
 
 
-def real_eval(wb, addrs):
-    """-> (list of (canon, crash class), dateutil accepted a text?, native values by addr)"""
+class Timeout(BaseException):
+    pass
+
+
+def _alarm(signum, frame):
+    raise Timeout()
+
+
+def real_eval(wb, addrs, limit=20):
+    """-> (list of (canon, crash class), dateutil accepted a text?); None when the real code needs more than
+    `limit` seconds (huge factorials, day-by-day recurrences over millennia …)"""
+    import signal
+    old = signal.signal(signal.SIGALRM, _alarm)
+    signal.alarm(limit)
+    try:
+        return _real_eval(wb, addrs)
+    except Timeout:
+        return None
+    finally:
+        signal.alarm(0)
+        signal.signal(signal.SIGALRM, old)
+
+
+def _real_eval(wb, addrs):
     from xlcalculator import Evaluator
     install_dateutil_probe()
     h0 = _DATEUTIL['hits']
@@ -766,7 +797,10 @@ def classify(real, crash, lean, exact):
 
 def disagrees(ctx, wb, addr):
     """does the cell still disagree (real vs Lean)?  -> (bool, real, lean)"""
-    (real, crash), = real_eval(wb, [addr])[0]
+    out = real_eval(wb, [addr])
+    if out is None:
+        return False, 'timeout', 'timeout'
+    (real, crash), = out[0]
     (lean, exact, _fx), = lean_eval(ctx, [(wb, [addr])])[0]
     return classify(real, crash, lean, exact) == 'drift', real, lean
 
@@ -839,7 +873,10 @@ def shrink(ctx, wb, trees, addr, budget=120):
                     continue
                 sheet = a.rsplit('!', 1)[0]
                 probe = dict(wb, cells=dict(wb['cells'], **{f'{sheet}!Z99': {'f': '=' + render(sub)}}))
-                (rv, _), = real_eval(probe, [f'{sheet}!Z99'])[0]
+                out = real_eval(probe, [f'{sheet}!Z99'])
+                if out is None:
+                    continue
+                (rv, _), = out[0]
                 lit = const_tree(rv)
                 if lit is None:
                     continue
@@ -888,7 +925,10 @@ def native_source(wb, trees, t, depth=0):
     (no return annotation / a class as annotation: COUNT, COUNTA, MAX, MIN, the IS-family)?"""
     t = strip_parens(t)
     if t[0] == 'call':
-        return root_name(t).replace('_XLFN.', '') in NATIVE
+        nm = root_name(t).replace('_XLFN.', '')
+        if nm == 'IF':                     # an omitted branch is `ValueExpr(True)` / `ValueExpr(False)`: a native bool
+            return len(t[2]) < 3 or any(native_source(wb, trees, x, depth + 1) for x in t[2][1:])
+        return nm in NATIVE
     if t[0] == 'ref' and depth < 4 and ':' not in t[2]:
         return False if trees is None else any(
             native_source(wb, trees, tt, depth + 1) for a, tt in trees.items()
@@ -1007,7 +1047,11 @@ def run(ctx):
         reqs = [(wb, addrs_of(wb)) for wb, _, _ in batch]
         leans = lean_eval(ctx, reqs)
         for (wb, trees, tag), (_, addrs), lres in zip(batch, reqs, leans):
-            rres, dated = real_eval(wb, addrs)
+            out = real_eval(wb, addrs)
+            if out is None:
+                res.count('skipped:real-code-slower-than-20s')
+                continue
+            rres, dated = out
             if dated:
                 res.count('skipped:dateutil-accepted-a-text')
                 continue
@@ -1055,7 +1099,7 @@ def run(ctx):
         entry = {'what': 'DRIFT model != code', 'input': {'workbook': wb, 'cell': a, 'compiled': fx},
                  'expected': describe(lean), 'got': describe(real)}
         sub = None
-        if trees and i < 60:
+        if trees and i < 400:
             try:
                 root, sub = blame(ctx, wb, trees, a)
                 if native_operands(ctx, wb, trees, a, sub):
@@ -1096,6 +1140,13 @@ def run(ctx):
                 wb2, trees2 = shrink(ctx, wb, trees, a)
                 root2, sub2 = blame(ctx, wb2, trees2, a)
                 _, r2, l2 = disagrees(ctx, wb2, a)
+                if native_operands(ctx, wb2, trees2, a, sub2):
+                    res.count('known:D57-native-operands')
+                    res.known.setdefault('D57', []).append({'workbook': wb2, 'cell': a})
+                    continue
+                if if_array(wb2, a, sub2):
+                    res.count('outside:IF-array-condition')
+                    continue
                 entry = {'what': f'DRIFT model != code at {root2}', 'input': {'workbook': wb2, 'cell': a,
                          'smallest_subformula': render(sub2) if sub2 else None, 'root_function': root2},
                          'expected': describe(l2), 'got': describe(r2)}
